@@ -1,7 +1,10 @@
 """C07  Receive-side limits are enforced and buffering stays bounded.
 
 Tie: a real QuicConnection (harness/sim Pair) completes a handshake; a key-holding peer PUPPET then
-sends hand-built frames.  From each run the harness projects the abstract op trace consumed by
+sends hand-built frames (and ACK frames that decide the fate of the subject's limit-advertising packets: acknowledged, or
+skipped so that the packet / time threshold declares them lost, placed before or after the peer's STREAM / RESET_STREAM
+frames of the same datagram, or in a datagram of their own with or without a write pass before the next one).
+From each run the harness projects the abstract op trace consumed by
 coq/model/ConnLimits.v (frames received, write passes, lost MAX_* frames) and the public
 observables (stream events, MAX_* / PATH_RESPONSE / RETIRE_CONNECTION_ID frames on the wire,
 CONNECTION_CLOSE code + frame type); the extracted model must print exactly these.
@@ -24,12 +27,14 @@ import types
 
 from vlib import core, corr
 
-DEPENDS = ["ConnLimits", "ConnLimitsP", "StreamRecv", "StreamRecvP", "RangeSet", "C07Consts", "Base", "Tok", "C07"]
+DEPENDS = ["ConnLimits", "ConnLimitsP", "ConnLimitsDeliv", "StreamRecv", "StreamRecvP", "RangeSet", "C07Consts", "Base", "Tok", "C07"]
 TRUSTED_BASE = [
     "extraction (ExtrOcamlBasic only) + coq/extract/driver.ml for running coq/model/ConnLimits.v",
     "harness/sim (Pair, wire observer, peer puppet: packet protection via aioquic's own CryptoContext; independent frame builders/parser)",
     "projection of a run to the model's op trace (harness/props/c07.py Runner): one op per frame the puppet sent, one Write per "
-    "datagrams_to_send pass, LimitLost per MAX_* frame in a packet the puppet declared lost",
+    "datagrams_to_send pass, LimitLost / StreamLimitLost per MAX_* frame of a packet that left the subject's set of in-flight packets "
+    "without having been acknowledged by the puppet (one private read: conn._loss.spaces[-1].sent_packets, used for the projection "
+    "only, never for a verdict), placed where the revealing ACK frame stood among the peer frames of that datagram",
     "modelled, not verified: the receive-side limit logic of connection.py as Gallina functions; TLS, packet building, pacing, "
     "congestion control and the ack queue are outside the model",
     "tools/gen/c07_consts.py (ast) for the constants",
@@ -148,7 +153,9 @@ class Runner:
         self.baseline = reachable_bytes(self.sub.conn) if measure else 0
         self.max_growth = 0
         self.subject_pns = []
-        self.lost_done = set()
+        self.lost_done = set()     # packets the puppet decided never to acknowledge
+        self.acked_done = set()    # packets the puppet has acknowledged
+        self.lost_seen = set()     # limit packets whose loss has been projected to the model trace
 
     # -- helpers -----------------------------------------------------------------------
     def _remote_params(self):
@@ -185,6 +192,20 @@ class Runner:
                 return None, False
         elif k == "R":
             sid, end, fin = fr[1], fr[2], True
+        elif k == "T":
+            # MAX_STREAM_DATA (0x11) / STREAM_DATA_BLOCKED (0x15): carries no data; it may create a peer-initiated
+            # stream and is then subject to the stream-count limit only
+            ft, sid = fr[1], fr[2]
+            subject_initiated = ((sid & 1) == 0) == self.is_client
+            if subject_initiated:
+                if sid not in self.local_open or (ft == 0x15 and (sid & 2)):
+                    return None, False     # wrong initiator / direction: STREAM_STATE_ERROR, not part of the property
+                return None, True
+            if ft == 0x11 and (sid & 2):
+                return None, False         # MAX_STREAM_DATA for a stream the subject cannot send on
+            if sid // 4 + 1 > self.adv_streams[bool(sid & 2)]:
+                return {4}, True
+            return None, True
         else:
             return None, False
         subject_initiated = ((sid & 1) == 0) == self.is_client
@@ -260,9 +281,14 @@ class Runner:
 
     def _write(self, dt=0.03):
         """one (or more, idempotent) write passes of the subject = model op Write"""
+        before = self._outstanding()
         self.pair.advance(dt)
         self.pair.pump(self.sub)
         frames = self._collect()
+        toks = self._declared_lost(before)     # loss-detection timer fired during advance(): LOST callbacks, then the write pass
+        if toks:
+            self.stats["loss_by_timer"] += 1
+        self.min_in += toks
         self.min_in.append(4)
         if self.closed is not None:
             self.mout += [3, self.closed[0], self.closed[1]]
@@ -353,12 +379,22 @@ class Runner:
             return F.ping()
         raise ValueError(k)
 
-    def _packet(self, frames, write=True):
+    def _packet(self, frames, write=True, ack=None, ack_first=True, on_received=None):
+        """one 1-RTT packet from the puppet.  ack: an ACK frame (bytes) put before (ack_first) or after the frames;
+        on_received(pos): called after receive_datagram with the index in the projected op trace at which the
+        effects of that ACK frame (delivery callbacks) belong."""
         expects = [self._expect(fr) for fr in frames]
+        pos = len(self.min_in)
         payload = [self._frame_bytes(fr) for fr in frames]
+        if ack is not None:
+            payload = [ack] + payload if ack_first else payload + [ack]
+            if not ack_first:
+                pos = len(self.min_in)
         data = self.pup.build_packet("1rtt", payload)
         try:
             self.sub.receive_datagram(data, self.peer.addr)
+            if on_received is not None:
+                on_received(pos)
         except self.ApiRaised as exc:
             self.raised = type(exc.exc).__name__
             self._events()
@@ -374,6 +410,9 @@ class Runner:
         if not write:
             return
         first_bad = next((e for e in expects if e[0]), None)
+        # frames are processed in order: an unjudged frame (outside the statement, e.g. on a stream the peer itself
+        # completed) BEFORE the first over-limit frame may close the connection with a code of its own
+        unjudged_before = first_bad is not None and any(not e[1] for e in expects[:expects.index(first_bad)])
         try:
             self._write()
         finally:
@@ -381,7 +420,7 @@ class Runner:
             code = self.closed[0] if self.closed else None
             if first_bad is not None:
                 self.stats["over_limit_frames"] += 1
-                if code not in first_bad[0]:
+                if code not in first_bad[0] and not (unjudged_before and code is not None):
                     self._fail("frame beyond an advertised limit (expected close with one of %s) but %s"
                                % (sorted(first_bad[0]), "connection stayed open" if code is None else "closed with %s" % code),
                                oracle="over_limit", expected=sorted(first_bad[0])[0], got=code)
@@ -392,45 +431,128 @@ class Runner:
                            % (ACCUSE[code], self.closed[1]), oracle="accused", code=ACCUSE[code],
                            after_reset=self.sent_reset)
 
-    # -- declare the latest packet carrying MAX_* frames lost --------------------------------
-    def _lose(self):
-        cand = [(pn, names, fields) for pn, names, fields in self.subject_pns
-                if pn not in self.lost_done and any(n.startswith("MAX_") for n in names)]
-        if not cand:
-            return
-        pn, names, fields = cand[-1]
-        if any(n in ("RETIRE_CONNECTION_ID", "PATH_RESPONSE", "NEW_CONNECTION_ID", "HANDSHAKE_DONE", "STREAM", "CRYPTO") for n in names):
-            return   # other retransmittable content: outside the model
-        guard = 0
-        while max(p for p, _, _ in self.subject_pns) < pn + 3 and guard < 12:
-            guard += 1
-            self._packet([["G"]])
-        allp = sorted({p for p, _, _ in self.subject_pns})
-        if allp[-1] < pn + 3:
-            return
-        self.lost_done.add(pn)
+    # -- delivery outcome of a packet that advertised limits --------------------------------------
+    _OTHER_RETX = ("RETIRE_CONNECTION_ID", "PATH_RESPONSE", "NEW_CONNECTION_ID", "HANDSHAKE_DONE", "STREAM", "CRYPTO")
+
+    def _limit_packets(self):
+        """1-RTT packets of the subject that carry MAX_* frames and whose fate the puppet has not decided yet"""
+        return [(pn, names, fields) for pn, names, fields in self.subject_pns
+                if pn not in self.lost_done and pn not in self.acked_done and any(n.startswith("MAX_") for n in names)]
+
+    def _outstanding(self):
+        """packet numbers the subject's loss recovery still tracks as in flight (application space).  A private
+        read, used only to project the run to the model's op trace: a LimitLost / StreamLimitLost op is emitted
+        for each MAX_* frame of a packet that left this set without having been acknowledged by the puppet."""
+        try:
+            return set(self.sub.conn._loss.spaces[-1].sent_packets.keys())
+        except Exception:
+            return set()
+
+    def _declared_lost(self, before):
+        """model tokens for the limit packets that were outstanding in `before`, are not any more, and were never
+        acknowledged by the puppet: the subject declared them lost (delivery handlers ran with LOST)"""
+        gone = before - self._outstanding()
+        toks = []
+        for pn, names, fields in self.subject_pns:
+            if pn in gone and pn not in self.acked_done and pn not in self.lost_seen \
+                    and any(n.startswith("MAX_") for n in names):
+                self.lost_seen.add(pn)
+                toks += self._loss_tokens(names, fields)
+                self.stats["lost_limit_packets"] += 1
+                self.stats["lost_limit_frames"] += sum(1 for n in names if n.startswith("MAX_"))
+        return toks
+
+    @staticmethod
+    def _loss_tokens(names, fields):
+        t = []
+        for n, f in zip(names, fields):
+            if n == "MAX_DATA":
+                t += [5, 0]
+            elif n == "MAX_STREAMS_BIDI":
+                t += [5, 1]
+            elif n == "MAX_STREAMS_UNI":
+                t += [5, 2]
+            elif n == "MAX_STREAM_DATA":
+                t += [6, f["stream_id"]]
+        return t
+
+    def _ranges(self, pns):
+        """ACK ranges (at most the 40 highest) for these packet numbers; what they cover is remembered as acknowledged"""
         ranges = []
-        for p in allp:
-            if p == pn or p in self.lost_done:
-                continue
+        for p in sorted(pns):
             if ranges and ranges[-1][1] == p - 1:
                 ranges[-1] = (ranges[-1][0], p)
             else:
                 ranges.append((p, p))
-        data = self.pup.build_packet("1rtt", [self.F.ack(ranges[-40:])])
-        self.sub.receive_datagram(data, self.peer.addr)
-        self._events()
-        for n, f in zip(names, fields):
-            if n == "MAX_DATA":
-                self.min_in += [5, 0]
-            elif n == "MAX_STREAMS_BIDI":
-                self.min_in += [5, 1]
-            elif n == "MAX_STREAMS_UNI":
-                self.min_in += [5, 2]
-            elif n == "MAX_STREAM_DATA":
-                self.min_in += [6, f["stream_id"]]
-        self.stats["lost_limit_packets"] += 1
-        self._write()
+        ranges = ranges[-40:]
+        self.acked_done.update(p for p in pns if p >= ranges[0][0])
+        return ranges
+
+    def _deliver(self, outcome, how, order, frames, which=-1):
+        """Decide the fate of one packet of the subject that carries MAX_DATA / MAX_STREAM_DATA / MAX_STREAMS frames
+        and send the peer frames `frames` around the ACK frame that reveals it.
+          outcome  "lost" | "acked"
+          how      "pkt":   the ACK skips the packet and covers >= 3 later ones (packet threshold);
+                   "time":  the ACK skips it and covers ONE later packet (gap < 3: time threshold only);
+                   "late":  like "time" after 0.25 s of silence (the subject's PTO probes are in flight as well);
+          order    "ack-first":  one packet [ACK, frames...]   (loss declared, then the frames, no write pass between)
+                   "data-first": one packet [frames..., ACK]
+                   "separate":   packet [ACK], then packet [frames...], no datagrams_to_send() in between
+                   "write-between": packet [ACK], write pass (re-advertisement), packet [frames...]
+          which    index into the undecided limit packets (-1 latest, 0 oldest)"""
+        cand = self._limit_packets()
+        pick = None
+        if cand:
+            pick = cand[which if -len(cand) <= which < len(cand) else -1]
+            if any(n in self._OTHER_RETX for n in pick[1]):
+                pick = None            # other retransmittable content: outside the model
+        if pick is None:
+            self.stats["deliver_no_limit_packet"] += 1
+            if frames:
+                self._packet(frames)
+            return
+        pn = pick[0]
+        if outcome == "lost":
+            if how == "late":
+                self._write(0.25)           # the later packet is sent (and acknowledged) long after the limit packet
+                self._packet([["G"]])
+            need = 3 if how == "pkt" else 1
+            guard = 0
+            while max(p for p, _, _ in self.subject_pns) < pn + need and guard < 12:
+                guard += 1
+                self._packet([["G"]])
+            allp = sorted({p for p, _, _ in self.subject_pns})
+            if allp[-1] < pn + need:
+                self.stats["deliver_no_later_packet"] += 1
+                if frames:
+                    self._packet(frames)
+                return
+            self.lost_done.add(pn)
+            self.stats["ack_gap_%s" % (">=3" if allp[-1] - pn >= 3 else "<3")] += 1
+        allp = sorted({p for p, _, _ in self.subject_pns})
+        acked = [p for p in allp if p not in self.lost_done]     # no stragglers: everything else is acknowledged
+        ackf = self.F.ack(self._ranges(acked))
+        before = self._outstanding()
+
+        def project(pos):
+            toks = self._declared_lost(before)
+            self.min_in[pos:pos] = toks
+            if outcome == "lost":
+                self.stats["loss_at_ack" if toks else "loss_not_at_ack"] += 1
+            else:
+                self.stats["acked_limit_packets"] += 1
+
+        self.stats["deliver_%s_%s_%s" % (outcome, how if outcome == "lost" else "-", order)] += 1
+        if order in ("ack-first", "data-first") and frames:
+            self._packet(frames, ack=ackf, ack_first=(order == "ack-first"), on_received=project)
+        else:
+            self._packet([], write=(order == "write-between" or not frames), ack=ackf, on_received=project)
+            if frames:
+                self._packet(frames)
+
+    def _lose(self):
+        """the latest packet carrying MAX_* frames is declared lost (packet threshold); write pass right after"""
+        self._deliver("lost", "pkt", "write-between", [])
 
     # -- the case ----------------------------------------------------------------------------
     def run(self):
@@ -445,17 +567,17 @@ class Runner:
                     # ack everything the subject sent; the ACK packet is followed by a write pass
                     allp = sorted({p for p, _, _ in self.subject_pns if p not in self.lost_done})
                     if allp:
-                        data = self.pup.build_packet("1rtt", [self.F.ack([(allp[0], allp[-1])] if not self.lost_done else
-                                                                         [(p, p) for p in allp[-40:]])])
-                        self.sub.receive_datagram(data, self.peer.addr)
-                        self._events()
-                    self._write()
+                        self._packet([], ack=self.F.ack(self._ranges(allp)))
+                    else:
+                        self._write()
                 elif k == "O":
                     self.sub.send_stream_data(op[1], b"")
                     self.local_open.add(op[1])
                     self.min_in += [3, op[1]]
                 elif k == "L":
                     self._lose()
+                elif k == "D":
+                    self._deliver(op[1], op[2], op[3], op[4], op[5] if len(op) > 5 else -1)
                 elif k == "Pa":    # PATH_CHALLENGE frames from another source address (a path the model does not have)
                     self.multi_addr = True
                     dv = int.from_bytes(bytes([op[1] & 0xFF]) * 8, "big")
@@ -476,6 +598,9 @@ class Runner:
 
 
 _CACHE = collections.OrderedDict()
+_DELIVERY = collections.Counter()     # measured over all distinct cases of this run (goes into the evidence)
+_DELIVERY_KEYS = ("lost_limit_packets", "lost_limit_frames", "loss_at_ack", "loss_not_at_ack", "loss_by_timer", "acked_limit_packets",
+                  "ack_gap_>=3", "ack_gap_<3", "deliver_no_limit_packet", "deliver_no_later_packet")
 
 
 def _run_case(case):
@@ -486,7 +611,10 @@ def _run_case(case):
         r_small = {"min": r.min_in, "mout": r.mout, "bad": r.bad, "closed": r.closed, "stats": dict(r.stats),
                    "growth": r.max_growth}
         _CACHE[key] = r_small
-        if len(_CACHE) > 64:
+        for k, v in r.stats.items():
+            if k in _DELIVERY_KEYS or k.startswith("deliver_"):
+                _DELIVERY[k] += v
+        if len(_CACHE) > 4096:
             _CACHE.popitem(last=False)
         r = r_small
     return r
@@ -585,7 +713,7 @@ def gen_final_size():
     return cases
 
 
-def gen_random(rng, n):
+def gen_random(rng, n, deliveries=False):
     cases = []
     for _ in range(n):
         subject = rng.choice(["server", "client"])
@@ -635,15 +763,34 @@ def gen_random(rng, n):
             elif r < 0.86:
                 ops.append(["A"])
                 continue
-            else:             # several frames in one packet (no write pass in between)
+            else:             # several frames in one packet (no write pass in between), half of the time together with
+                              # the delivery outcome of a packet that advertised limits
                 batch = []
-                for _ in range(rng.randint(2, 4)):
+                for _ in range(rng.randint(1, 4)):
                     s2 = rng.choice(sids)
                     h2 = hi.get(s2, 0)
                     n2 = rng.choice([1, 20, 150])
+                    if not risky:
+                        room = min(lim_guess["msd"] - h2, lim_guess["md"] - sum(hi.values()))
+                        if room <= 0:
+                            continue
+                        n2 = min(n2, room)
+                    elif rng.random() < 0.3:     # at the boundary of what has been advertised (as far as the generator can tell)
+                        n2 = max(1, min(lim_guess["msd"] - h2, lim_guess["md"] - sum(hi.values())) + rng.choice([-1, 0, 0, 1]))
+                        n2 = min(n2, 300)
                     batch.append(["S", s2, h2, n2, rng.randrange(256), 0, 1])
                     hi[s2] = h2 + n2
-                ops.append(["B", batch])
+                if deliveries and rng.random() < 0.6:
+                    outcome, how = rng.choice(DELIVERY_OUTCOMES)
+                    ops.append(["D", outcome, how, rng.choice(DELIVERY_ORDERS[:2] * 2 + DELIVERY_ORDERS[2:]), batch, rng.choice([-1, -1, 0])])
+                elif len(batch) > 1:
+                    ops.append(["B", batch])
+                else:
+                    ops += batch
+                if max(hi.values() or [0]) * 2 > lim_guess["msd"]:
+                    lim_guess["msd"] *= 2
+                if sum(hi.values()) * 2 > lim_guess["md"]:
+                    lim_guess["md"] *= 2
                 continue
             ops.append(fr)
             # the subject doubles a limit once more than half is used
@@ -651,7 +798,8 @@ def gen_random(rng, n):
                 lim_guess["msd"] *= 2
             if sum(hi.values()) * 2 > lim_guess["md"]:
                 lim_guess["md"] *= 2
-        cases.append(_case(subject, msd, md, ops, seed=rng.randint(1, 5), kind="random-risky" if risky else "random"))
+        cases.append(_case(subject, msd, md, ops, seed=rng.randint(1, 5),
+                           kind=("random-delivery" if deliveries else "random") + ("-risky" if risky else "")))
     return cases
 
 
@@ -714,6 +862,101 @@ def gen_lost_limits():
     return cases
 
 
+DELIVERY_OUTCOMES = (("lost", "pkt"), ("lost", "time"), ("lost", "late"), ("acked", "-"))
+DELIVERY_ORDERS = ("ack-first", "separate", "data-first", "write-between")
+
+
+def gen_delivery():
+    """Delivery outcome (ACKED / LOST by packet threshold / LOST by time threshold) of the packet that advertised a
+    raised limit x peer frames at the boundary old limit .. new limit x order of the revealing ACK frame and the peer
+    frames (same datagram before / after, next datagram without a write pass, after the re-advertisement), for the
+    connection-level limit (MAX_DATA), a per-stream limit (MAX_STREAM_DATA) and both stream-count limits (MAX_STREAMS).
+    The limit in force is the largest value ever written to the wire, whatever happened to the packet."""
+    cases = []
+
+    def add(subject, msd, md, setup, probes, kind):
+        for outcome, how in DELIVERY_OUTCOMES:
+            for order in DELIVERY_ORDERS:
+                for probe in probes:
+                    fr = probe if isinstance(probe[0], list) else [probe]
+                    cases.append(_case(subject, msd, md, setup + [["D", outcome, how, order, fr]], kind=kind))
+
+    for subject in ("server", "client"):
+        pb, pu, ob, ou = _peer_sids(subject)
+        # ---- connection level: msd 3000, md L = 2000; 1001 bytes on pb -> MAX_DATA 4000 (no MAX_STREAM_DATA: 2002 <= 3000)
+        L, used = 2000, 1001
+        probes = []
+        for total in (used + 1, L - 1, L, L + 1, 2 * L - 1, 2 * L, 2 * L + 1):
+            e = total - used                                     # on another stream: the sum is what counts
+            probes.append(["S", pu, e - min(e, 7), min(e, 7), 3, 0, 1])
+        for total in (L, L + 1, 2 * L, 2 * L + 1):
+            probes.append(["R", pu, total - used])
+        probes.append(["S", pb, used, 0, 3, 0, 1])               # nothing new
+        for total in (used + 1, L, L + 1):
+            probes.append(["S", pb, total - 1, 1, 3, 0, 1])      # same stream
+        probes.append(["S", pu, 2 * L - used - 3, 3, 3, 1, 1])   # FIN exactly at the new limit
+        probes.append([["S", pu, 0, 500, 3, 0, 0], ["S", pb + 4, 2 * L - used - 500 - 5, 5, 4, 0, 1]])   # two frames filling the new window
+        probes.append([["S", pu, 0, 500, 3, 0, 0], ["R", pb + 4, 2 * L - used - 500 + 1]])           # ... one byte too many
+        add(subject, 3000, L, [["S", pb, 0, used, 1, 0, 0]], probes, "delivery-max-data")
+        # ---- per-stream level: msd L = 1000, md 4000; 501 bytes on pb -> MAX_STREAM_DATA(pb, 2000) only
+        L, used = 1000, 501
+        probes = [["S", pb, used, 0, 3, 0, 1]]
+        for e in (used + 1, L - 1, L, L + 1, 2 * L - 1, 2 * L, 2 * L + 1):
+            probes.append(["S", pb, e - 1, 1, 3, 0, 1])
+        for e in (L, L + 1, 2 * L, 2 * L + 1):
+            probes.append(["R", pb, e])
+        probes.append(["S", pb, 2 * L - 3, 3, 3, 1, 1])
+        for e in (L, L + 1):                                     # another stream keeps its own (initial) limit
+            probes.append(["S", pb + 4, e - 1, 1, 3, 0, 1])
+        probes.append([["S", pb, L, 10, 3, 0, 1], ["S", pb, 2 * L - 1, 1, 3, 0, 1]])
+        add(subject, L, 4000, [["S", pb, 0, used, 1, 0, 0]], probes, "delivery-max-stream-data")
+        # ---- stream count: the 65th stream of a type -> MAX_STREAMS 256 for that type
+        for base, other in ((pb, pu), (pu, pb)):
+            probes = []
+            for cnt in (128, 129, 256, 257):
+                probes.append(["S", base + 4 * (cnt - 1), 0, 1, 3, 0, 0])
+            for cnt in (129, 257):
+                probes.append(["R", base + 4 * (cnt - 1), 0])
+            for cnt in (256, 257):
+                probes.append(["T", 0x15, base + 4 * (cnt - 1)])
+            if base == pb:
+                probes.append(["T", 0x11, base + 4 * 255])
+                probes.append(["T", 0x11, base + 4 * 256])
+            for cnt in (128, 129):                               # the other type keeps its own limit
+                probes.append(["S", other + 4 * (cnt - 1), 0, 1, 3, 0, 0])
+            add(subject, 1000, 4000, [["S", base + 4 * 64, 0, 1, 1, 0, 0]], probes, "delivery-max-streams")
+        # ---- chains: an older (stale) advertisement lost after a newer one went out; a re-advertisement lost again;
+        #      every limit of one packet lost at once
+        for order in ("ack-first", "separate"):
+            for how in ("pkt", "time"):
+                c = lambda ops, md=2000, msd=3000: cases.append(_case(subject, msd, md, ops, kind="delivery-chain"))
+                c([["S", pb, 0, 1001, 1, 0, 0], ["S", pu, 0, 1000, 2, 0, 0],                       # MAX_DATA 4000, then 8000
+                   ["D", "lost", how, order, [["S", pu, 2994, 5, 3, 0, 1]], 0],                    # the stale one is lost
+                   ["D", "lost", how, order, [["S", pb + 4, 2990, 10, 3, 0, 1]]],                  # then the newer one
+                   ["S", pu + 4, 999, 1, 3, 0, 1], ["S", pb + 8, 0, 1, 3, 0, 0]])                  # 8000 reached, 8001 is over
+                c([["S", pb, 0, 1001, 1, 0, 0], ["D", "lost", how, "write-between", []],           # re-advertisement ...
+                   ["D", "lost", how, order, [["S", pu, 2990, 9, 3, 0, 1]]],                       # ... lost again
+                   ["D", "acked", "-", order, [["R", pb + 4, 0]]], ["S", pb + 4, 0, 1, 1, 0, 0]])
+                c([["S", pb, 0, 1001, 1, 0, 0], ["S", pu + 4 * 64, 0, 1, 1, 0, 0],                 # MAX_DATA + MAX_STREAM_DATA + MAX_STREAMS_UNI
+                   ["D", "lost", how, order, [["S", pb, 1995, 5, 3, 0, 1], ["S", pu + 4 * 255, 0, 1, 3, 0, 0], ["S", pb + 4, 1994, 5, 3, 0, 1]]],
+                   ["S", pu + 4 * 256, 0, 0, 3, 0, 0]], md=2000, msd=1000 * 2)
+    return cases
+
+
+def pick_delivery(cases, thorough):
+    """quick tier: every case where a loss is revealed right before the peer frames (no write pass in between) by packet
+    or time threshold, and every 4th of the rest"""
+    if thorough:
+        return cases
+    out = []
+    for i, c in enumerate(cases):
+        d = [o for o in c["ops"] if o[0] == "D"]
+        hot = any(o[1] == "lost" and o[2] in ("pkt", "time") and o[3] in ("ack-first", "separate") for o in d)
+        if hot or i % 4 == 0:
+            out.append(c)
+    return out
+
+
 def gen_findings(thorough=False):
     """Inputs on which the unchanged tree violates the property (documented in docs/C07.md)."""
     cases = []
@@ -748,13 +991,23 @@ def _opname(o):
 
 def _nontrivial(c, out):
     # at least one frame was judged on the real connection and something observable happened
-    return len(out) > 0 and any(o[0] in ("S", "R", "B", "C", "P", "N", "T") for o in c["ops"])
+    return len(out) > 0 and any(o[0] in ("S", "R", "B", "C", "P", "N", "T", "D") for o in c["ops"])
 
 
 def _simplify(op):
     if op[0] == "B" and len(op[1]) > 1:
         for i in range(len(op[1])):
             yield ["B", op[1][:i] + op[1][i + 1:]]
+    if op[0] == "D":
+        for i in range(len(op[4])):
+            if len(op[4]) > 1:
+                yield op[:4] + [op[4][:i] + op[4][i + 1:]] + op[5:]
+        if len(op) > 5 and op[5] != -1:
+            yield op[:5]
+        if op[2] == "late":
+            yield [op[0], op[1], "time"] + op[3:]
+        if op[3] == "separate":
+            yield op[:3] + ["ack-first"] + op[4:]
     if op[0] == "S" and op[3] > 1:
         yield ["S", op[1], op[2] + op[3] - 1, 1, op[4], op[5], 1]
 
@@ -789,7 +1042,14 @@ def run(ctx):
         fams.setdefault(c["kind"].split("-")[0] + ("-cross" if c["kind"].endswith("cross") else ""), []).append(c)
     for fam in fams.values():
         s.run(fam)
+    # delivery outcomes of limit-advertising packets x boundary frames x order (docs/C07.md "Delivery outcomes")
+    dfams = collections.OrderedDict()
+    for c in pick_delivery(gen_delivery(), ctx.thorough):
+        dfams.setdefault(c["kind"], []).append(c)
+    for fam in dfams.values():
+        s.run(fam)
     s.run(gen_random(rng, ctx.n(120, 3000)))
+    s.run(gen_random(rng, ctx.n(150, 3000), deliveries=True))
     found = gen_findings(ctx.thorough)
     for kind in ("finding-reset-double-count",):
         s.run([c for c in found if c["kind"] == kind])
@@ -799,9 +1059,11 @@ def run(ctx):
         [s, sl],
         "puppet-driven frame sequences on a real QuicConnection after a real handshake (boundary tables on all four stream types "
         "and both roles, final-size interplay, stream-count, repetition of PATH_CHALLENGE / NEW_CONNECTION_ID / CRYPTO, never-completed "
-        "streams, random mostly-within-limit histories interleaved with the subject's own limit raises); distinct = distinct projected "
+        "streams, delivery outcomes (ACKED / LOST by packet or time threshold) of the packets that advertised raised limits x frames at "
+        "the boundary old..new limit x order of the revealing ACK and the frames, random mostly-within-limit histories interleaved with the "
+        "subject's own limit raises and such delivery outcomes); distinct = distinct projected "
         "op trace, non-trivial = at least one peer frame processed and an observable produced",
-        {})
+        {"delivery_outcomes": dict(sorted(_DELIVERY.items()))})
 
 
 def replay(ctx, rep):
